@@ -1,24 +1,54 @@
 """KV family: BadgerKV contract spec (specs/kv) -> TLC model checking, TLC-generated API
 histories (BadgerKVGen) -> replay against the real DB (harness/cmd/kvreplay)."""
-import json, os, subprocess, sys, time
+import hashlib, json, os, re, subprocess, sys, time
 sys.path.insert(0, os.path.join(os.path.dirname(os.path.abspath(__file__)), "..", "tools"))
 import vlib
 from vlib import Inconclusive, log
 
 
-def write_cfg(path, spec, consts, invariants=(), properties=(), constraint=None):
+# --------------------------------------------------------------------------- key tables
+# Concretisation tables: abstract key i (1-based) -> byte string.  Every table is sorted in
+# byte order (the contract's key order is numeric order).  kvreplay receives the table of a
+# run through -keys, so this list is the single source of truth.
+KEY_TABLES = [
+    [b"a", b"a\x00", b"ab", b"a\xff", b"b", b"b\x00\x00", b"c"],
+    [b"k1", b"k2", b"k3", b"k4", b"k5", b"k6", b"k7"],
+    [b"\x00", b"\x00\x00", b"\x01", b"\x7f\xff", b"\xff", b"\xff\x00", b"\xff\xff"],
+    [b"key", b"key0", b"key00", b"keya", b"keyb", b"kez", b"l"],
+]
+# >= 8-byte keys whose bytes can be searched for in files (C23 plaintext scan)
+MARKER_KEYS = [b"ukey-marker-%02d" % i for i in range(1, 8)]
+INTERNAL_KEY = b"!badger!verifkey"
+
+
+def key_table(seed, internal=False, table=None):
+    """Sorted concretisation table for a seed; with internal=True a reserved-prefix key is
+    inserted at its byte-order position."""
+    t = list(KEY_TABLES[seed % len(KEY_TABLES)] if table is None else table)
+    if internal:
+        t.append(INTERNAL_KEY)
+    t.sort()
+    assert len(set(t)) == len(t)
+    return t
+
+
+def key_consts(table):
+    """TLA+ constants Keys / Pre / Internal describing a concretisation table."""
+    n = len(table)
+    pre = ["<<%d, %d>>" % (i + 1, j + 1) for i in range(n) for j in range(n) if table[j].startswith(table[i])]
+    internal = [i + 1 for i in range(n) if table[i].startswith(b"!badger!")]
+    return dict(Keys="1..%d" % n, Pre="{" + ", ".join(pre) + "}", Internal=tla_set(internal))
+
+
+def keys_arg(d, table, name="keys.json"):
+    """Write a key table as JSON (latin-1 strings) for kvreplay -keys."""
+    path = os.path.join(d, name)
     with open(path, "w") as f:
-        f.write("SPECIFICATION %s\nCONSTANTS\n" % spec)
-        for k, v in consts.items():
-            f.write("  %s = %s\n" % (k, v))
-        if invariants:
-            f.write("INVARIANTS %s\n" % " ".join(invariants))
-        if properties:
-            f.write("PROPERTIES %s\n" % " ".join(properties))
-        if constraint:
-            f.write("CONSTRAINT %s\n" % constraint)
+        json.dump([k.decode("latin-1") for k in table], f)
+    return path
 
 
+# --------------------------------------------------------------------------- models
 def tla_set(xs):
     def one(x):
         if isinstance(x, bool):
@@ -29,17 +59,74 @@ def tla_set(xs):
     return "{" + ", ".join(one(x) for x in xs) + "}"
 
 
+def tla_opts(rev=False, all=False, since=0, pfx=0, pmode="none", seek=0, internal=False):
+    b = lambda x: "TRUE" if x else "FALSE"
+    return ('[rev |-> %s, all |-> %s, since |-> %d, pfx |-> %d, pmode |-> "%s", seek |-> %d, internal |-> %s]'
+            % (b(rev), b(all), since, pfx, pmode, seek, b(internal)))
+
+
+def tla_seq(xs):
+    return "<<" + ", ".join(xs) + ">>"
+
+
+KV_DEFAULTS = dict(Keys="{1, 2}", Pre=None, Internal="{}", Txns="{1, 2}", MaxTs="2", MaxNow="1",
+                   Managed="FALSE", UMs="{0}", Exps="{0}", Discs="{FALSE}", IterDirs="{FALSE}", Feat='{"iter"}')
+GEN_DEFAULTS = dict(HistLen="6", EnvSteps="{}", MaxOps="3", MaxActive="3", IterOptList="<<>>", SeekKeys=None,
+                    WriteKeys=None, SplitIter="FALSE", ScanVias="{}", RejKinds="{}", BigSets="FALSE",
+                    Dumps="FALSE", TickWeight="1", EnvWeight="1", WriteWeight="1")
 MC_DEFAULT = dict(Keys="{1, 2}", Txns="{1, 2}", MaxTs="2", MaxNow="1", Managed="FALSE",
                   UMs="{0}", Exps="{0}", Discs="{FALSE}", IterDirs="{FALSE}")
 
 
-def model_check(c, name, consts, invariants, properties=(), bound="nval <= 3", timeout=900, workers=None):
+def _complete(consts, gen):
+    out = dict(KV_DEFAULTS)
+    if gen:
+        out.update(GEN_DEFAULTS)
+    out.update(consts)
+    if out.get("Pre") is None:
+        out["Pre"] = "{<<k, k>> : k \\in (%s)}" % out["Keys"]
+    if gen:
+        for k in ("SeekKeys", "WriteKeys"):
+            if out.get(k) is None:
+                out[k] = "(%s) \\ (%s)" % (out["Keys"], out["Internal"])
+    return out
+
+
+def write_model(d, name, extends, consts, spec, invariants=(), properties=(), constraint=None, view=None,
+                defs="", postcondition=None):
+    """Write <name>.tla (EXTENDS <extends>; one definition per constant) and <name>.cfg in d.
+    Every constant is substituted by a definition so that any TLA+ expression can be used."""
+    with open(os.path.join(d, name + ".tla"), "w") as f:
+        f.write("---- MODULE %s ----\nEXTENDS %s\n" % (name, extends))
+        for k, v in consts.items():
+            f.write("c_%s == %s\n" % (k, v))
+        if constraint:
+            f.write("c__Constraint == %s\n" % constraint)
+        if view:
+            f.write("c__View == %s\n" % view)
+        f.write(defs + "\n====\n")
+    with open(os.path.join(d, name + ".cfg"), "w") as f:
+        f.write("SPECIFICATION %s\nCONSTANTS\n" % spec)
+        for k in consts:
+            f.write("  %s <- c_%s\n" % (k, k))
+        if invariants:
+            f.write("INVARIANTS %s\n" % " ".join(invariants))
+        if properties:
+            f.write("PROPERTIES %s\n" % " ".join(properties))
+        if constraint:
+            f.write("CONSTRAINT c__Constraint\n")
+        if view:
+            f.write("VIEW c__View\n")
+        if postcondition:
+            f.write("POSTCONDITION %s\n" % postcondition)
+
+
+def model_check(c, name, consts, invariants, properties=(), bound="nval <= 3", timeout=900, workers=None,
+                coverage=False):
     """Exhaustive TLC on the contract module with the given constants."""
     d = vlib.stage_specs(["kv"])
-    with open(os.path.join(d, "KVMC.tla"), "w") as f:
-        f.write("---- MODULE KVMC ----\nEXTENDS BadgerKV\nBound == %s\n====\n" % bound)
-    write_cfg(os.path.join(d, "KVMC.cfg"), "Spec", consts, invariants, properties, "Bound")
-    res = vlib.run_tlc(d, "KVMC", "KVMC.cfg", timeout=timeout, workers=workers)
+    write_model(d, "KVMC", "BadgerKV", _complete(consts, False), "Spec", invariants, properties, bound)
+    res = vlib.run_tlc(d, "KVMC", "KVMC.cfg", timeout=timeout, workers=workers, coverage=coverage)
     c.add_tlc(name, res)
     vlib.require_tlc_ok(res, "BadgerKV/" + name)
     return res
@@ -48,11 +135,11 @@ def model_check(c, name, consts, invariants, properties=(), bound="nval <= 3", t
 def generate(c, name, consts, num, depth, seed, workers=4, timeout=600, exhaustive=False):
     """Run BadgerKVGen; returns list of histories (lists of step dicts)."""
     d = vlib.stage_specs(["kv"])
-    write_cfg(os.path.join(d, "Gen.cfg"), "GenSpec", consts, ["Emit"])
+    write_model(d, "Gen", "BadgerKVGen", _complete(consts, True), "GenSpec", ["Emit"])
     if exhaustive:
-        res = vlib.run_tlc(d, "BadgerKVGen", "Gen.cfg", timeout=timeout, workers=workers)
+        res = vlib.run_tlc(d, "Gen", "Gen.cfg", timeout=timeout, workers=workers)
     else:
-        res = vlib.run_tlc(d, "BadgerKVGen", "Gen.cfg", timeout=timeout, workers=workers,
+        res = vlib.run_tlc(d, "Gen", "Gen.cfg", timeout=timeout, workers=workers,
                            simulate=max(1, num // workers), depth=depth + 1, seed=seed)
     if res.violation or (not res.ok):
         raise Inconclusive("generator %s failed: %s %s" % (name, res.violation, res.error_trace[:2000]))
@@ -65,8 +152,80 @@ def generate(c, name, consts, num, depth, seed, workers=4, timeout=600, exhausti
     return res.cases
 
 
-def replay(c, cases, config, seed, label, timeout=1200, nproc=None):
-    """Replay histories with kvreplay under a DB configuration; report mismatches."""
+# --------------------------------------------------------------------------- store cases (KVIterGen)
+ITER_DEFAULTS = dict(StoreKeys="{1, 2}", TsSet="1..2", Kinds='{"val", "del"}', MaxVersions="2", Contiguous="FALSE",
+                     OnePerKey="FALSE",
+                     ReadTs="0", Now="5", NSrc="6", NMixed="3", PendKeys="{}", PendKinds='{"val", "del"}',
+                     MaxPend="0", Queries="{NoOpts}")
+
+
+def query_set(seeks, sinces, prefixes, keyiters=(), internal=False, dirs=("FALSE", "TRUE"), alls=("FALSE", "TRUE")):
+    """TLA+ expression for a set of iterator option records: the product of directions,
+    AllVersions, SinceTs values, seek keys (0 = Rewind) with: no prefix / opt.Prefix = p /
+    ValidForPrefix(p) for p in prefixes; NewKeyIterator(k) for k in keyiters; and, if
+    internal, InternalAccess on for the prefix-less combinations."""
+    rec = ('[rev |-> r, all |-> a, since |-> s, pfx |-> %s, pmode |-> %s, seek |-> k, internal |-> %s]')
+    dom = "r \\in {%s}, a \\in {%s}, s \\in %s, k \\in %s" % (", ".join(dirs), ", ".join(alls), tla_set(sinces), tla_set(seeks))
+    parts = ["{" + rec % ("0", '"none"', "FALSE") + " : " + dom + "}"]
+    if prefixes:
+        parts.append("{" + rec % ("p", "m", "FALSE") + " : " + dom + ', p \\in %s, m \\in {"opt", "valid"}}' % tla_set(prefixes))
+    if keyiters:
+        parts.append('{[rev |-> r, all |-> TRUE, since |-> s, pfx |-> p, pmode |-> "key", seek |-> k, internal |-> FALSE]'
+                     " : r \\in {%s}, s \\in %s, p \\in %s, k \\in {0} \\cup %s}" % (", ".join(dirs), tla_set(sinces), tla_set(keyiters), tla_set(keyiters)))
+    if internal:
+        parts.append("{" + rec % ("0", '"none"', "TRUE") + " : " + dom + "}")
+    return " \\cup ".join(parts)
+
+
+def gen_store(c, name, consts, workers=4, timeout=900, check_theorems=True):
+    """Run KVIterGen exhaustively; returns store cases grouped by store: each has the runs
+    (pending sequence + gets + queries) generated for it."""
+    d = vlib.stage_specs(["kv"])
+    full = dict(KV_DEFAULTS)
+    for k in ("Txns", "MaxTs", "MaxNow", "Managed", "UMs", "Exps", "Discs", "IterDirs", "Feat"):
+        full.pop(k)
+    full.update(ITER_DEFAULTS)
+    full.update(consts)
+    if full.get("Pre") is None:
+        full["Pre"] = "{<<k, k>> : k \\in (%s)}" % full["Keys"]
+    inv = ["Emit"] + (["Theorems", "IterGetAgree"] if check_theorems else [])
+    write_model(d, "IGen", "KVIterGen", full, "GenSpec", inv)
+    res = vlib.run_tlc(d, "IGen", "IGen.cfg", timeout=timeout, workers=workers)
+    if res.violation or not res.ok:
+        raise Inconclusive("KVIterGen %s failed: %s %s" % (name, res.violation, res.error_trace[:3000]))
+    c.cov["tlc_runs"].append({"config": "itergen:" + name, "mode": "exhaustive", "cases": len(res.cases),
+                              "states_generated": res.generated, "distinct_states": res.distinct,
+                              "wall_s": round(res.wall, 1), "theorems_checked": check_theorems})
+    c.cov["states"] += res.distinct
+    c.cov["transitions"] += res.generated
+    groups = {}
+    for cs in res.cases:
+        key = json.dumps([cs["store"], cs["rts"], cs["now"]], sort_keys=True)
+        g = groups.setdefault(key, {"store": cs["store"], "rts": cs["rts"], "now": cs["now"], "pl": cs["pl"],
+                                    "runs": [], "baseGets": None, "baseIter": None})
+        g["runs"].append({"pend": cs["pend"], "gets": cs["gets"], "q": cs["q"]})
+        if not cs["pend"]:
+            g["baseGets"] = cs["gets"]
+            plain = [q for q in cs["q"] if q["o"] == {"rev": False, "all": False, "since": 0, "pfx": 0,
+                                                      "pmode": "none", "seek": 0, "internal": False}]
+            g["baseIter"] = plain[0]["r"] if plain else None
+    out = []
+    for g in groups.values():
+        if g["baseGets"] is None:
+            raise Inconclusive("KVIterGen produced a store without its pending-free run")
+        if g["baseIter"] is None:
+            # plain forward iteration = keys found by Get, ascending, with the version Get reports
+            g["baseIter"] = [(k + 1) * 1000 + r["ts"] for k, r in enumerate(g["baseGets"]) if r["found"]]
+        out.append(g)
+    return out, len(res.cases)
+
+
+def replay(c, cases, config, seed, label, timeout=1200, nproc=None, keys=None, mode="hist", flags=(),
+           cwd=None, sig_prefix="kv", max_report=3, collect=None, tmpdir=None):
+    """Replay cases with kvreplay under a DB configuration; report mismatches as violations
+    (after re-running the failing case once from a clean state).
+    keys: concretisation table (list of bytes) passed through -keys; flags: extra kvreplay flags;
+    collect: optional dict receiving aggregated per-case statistics."""
     if not cases:
         raise Inconclusive("no cases generated for " + label)
     binp = vlib.go_build("cmd/kvreplay")
@@ -75,15 +234,20 @@ def replay(c, cases, config, seed, label, timeout=1200, nproc=None):
     with open(inp, "w") as f:
         for h in cases:
             f.write(json.dumps(h) + "\n")
+    base = [binp, "-config", config, "-seed", str(seed), "-mode", mode] + list(flags)
+    if keys is not None:
+        base += ["-keys", keys_arg(d, keys)]
     nproc = nproc or min(vlib.NCPU, max(1, len(cases) // 20))
     procs = []
     env = vlib.goenv()
-    env["TMPDIR"] = d
+    env["TMPDIR"] = tmpdir or d
     for s in range(nproc):
         out = open(os.path.join(d, "res%d.ndjson" % s), "w")
-        p = subprocess.Popen([binp, "-in", inp, "-config", config, "-seed", str(seed),
-                              "-shard", str(s), "-nshards", str(nproc)], stdout=out,
-                             stderr=subprocess.PIPE, env=env)
+        cmd = base + ["-in", inp, "-shard", str(s), "-nshards", str(nproc)]
+        if "-trace" in flags:
+            k = cmd.index("-trace")
+            cmd[k + 1] = cmd[k + 1] + ".%d" % s
+        p = subprocess.Popen(cmd, stdout=out, stderr=subprocess.PIPE, env=env, cwd=cwd)
         procs.append((p, out))
     t0 = time.time()
     results = []
@@ -103,43 +267,207 @@ def replay(c, cases, config, seed, label, timeout=1200, nproc=None):
     if len(results) != len(cases):
         raise Inconclusive("kvreplay returned %d results for %d cases" % (len(results), len(cases)))
     bad = [r for r in results if not r["ok"]]
-    envs = {}
+    envs, stats = {}, {}
     for r in results:
         for k, v in (r.get("env") or {}).items():
             envs[k] = envs.get(k, 0) + v
+        for k, v in (r.get("stats") or {}).items():
+            stats[k] = stats.get(k, 0) + v
+        for k in ("fsEvents", "scanFiles", "scanBytes", "scanHits"):
+            if k in r:
+                stats[k] = stats.get(k, 0) + r[k]
+    if collect is not None:
+        for k, v in list(envs.items()) + list(stats.items()):
+            collect[k] = collect.get(k, 0) + v
     c.cov["engines"].append({"replay": label, "config": config, "cases": len(results),
-                             "mismatches": len(bad), "env_steps_executed": envs,
+                             "mismatches": len(bad), "env_steps_executed": envs, "stats": stats,
                              "wall_s": round(time.time() - t0, 1)})
     per_sig = {}
     for r in bad:
         per_sig[r["sig"]] = per_sig.get(r["sig"], 0) + 1
-        if per_sig[r["sig"]] > 3:
+        if per_sig[r["sig"]] > max_report:
             continue
         case = cases[r["case"]]
         # confirm once more from a clean DB to rule out harness noise
-        again = rerun_one(binp, case, config, seed, d)
+        again = rerun_one(base, case, d, cwd)
         if again is None or again.get("ok"):
             log("mismatch did not reproduce on re-run, ignoring:", r.get("sig"))
             c.cov.setdefault("unreproduced", 0)
             c.cov["unreproduced"] += 1
             continue
-        sig = "kv:%s:%s" % (config.split("+")[0] if False else "", r["sig"])
-        sig = "kv:%s op=%s" % (r["sig"], r.get("op", "?"))
+        sig = "%s:%s op=%s" % (sig_prefix, r["sig"], r.get("op", "?"))
+        extra = classify(case, r) if mode == "hist" else ""
+        if extra:
+            sig += " " + extra
         c.violation(sig, {"config": config, "step": r.get("step"), "detail": r.get("detail")},
-                    {"config": config, "seed": seed, "history": case, "replay_cmd": "kvreplay"})
+                    {"config": config, "seed": seed, "mode": mode, "flags": list(flags), "case": case,
+                     "keys": [k.decode("latin-1") for k in keys] if keys else None,
+                     "replay_cmd": "kvreplay"})
     return results
 
 
-def rerun_one(binp, case, config, seed, d):
+def rerun_one(base, case, d, cwd=None):
     inp = os.path.join(d, "one.ndjson")
     with open(inp, "w") as f:
         f.write(json.dumps(case) + "\n")
     env = vlib.goenv()
     env["TMPDIR"] = d
-    rc, out, err, _ = vlib.run([binp, "-in", inp, "-config", config, "-seed", str(seed)], timeout=120, env=env)
+    cmd = list(base)
+    if "-trace" in cmd:
+        k = cmd.index("-trace")
+        del cmd[k:k + 2]
+    rc, out, err, _ = vlib.run(cmd + ["-in", inp], timeout=300, env=env, cwd=cwd)
     if rc != 0 or not out.strip():
         return None
     return json.loads(out.strip().splitlines()[0])
+
+
+def classify(case, r):
+    """Input-class tags appended to a violation signature so that known findings can be
+    matched narrowly."""
+    tags = []
+    step = r.get("step", -1)
+    prefix = case[:step + 1] if isinstance(step, int) and step >= 0 else case
+    # managed mode: some key written at an older version after a newer one (documented
+    # limitation "never write an older timestamp for the same key")
+    newest = {}
+    older_later = False
+    pend = {}
+    for s in prefix:
+        if s["op"] in ("set", "del"):
+            pend.setdefault(s["t"], set()).add(s["k"])
+        if s["op"] == "commitAt" and s.get("res") == "ok":
+            for k in pend.get(s["t"], ()):
+                if k in newest and s["cts"] < newest[k]:
+                    older_later = True
+                newest[k] = max(newest.get(k, 0), s["cts"])
+    if older_later:
+        tags.append("older-version-written-later")
+    if any(s["op"] in ("commit", "commitAt") and s.get("res") in ("blocked", "closed") for s in prefix):
+        tags.append("after-rejected-commit")
+    return " ".join(tags)
+
+
+# --------------------------------------------------------------------------- trace validation (Threshold)
+def validate_threshold_trace(c, trace_files, label, timeout=600):
+    """Concatenate the per-shard decision traces and validate them with TLC against
+    specs/kv/ThresholdTrace.tla. Returns (#lines, #segments, rejected_line_or_None)."""
+    d = vlib.stage_specs(["kv"])
+    n = segs = puts = 0
+    with open(os.path.join(d, "trace.ndjson"), "w") as out:
+        for tf in trace_files:
+            if not os.path.exists(tf):
+                continue
+            for line in open(tf):
+                if line.strip():
+                    out.write(line)
+                    n += 1
+                    segs += '"ev":"reset"' in line
+                    puts += '"ev":"put"' in line
+    if n == 0:
+        raise Inconclusive("no decision trace recorded (%s)" % label)
+    write_model(d, "ThrTrace", "ThresholdTrace", {}, "TraceSpec", constraint="HighWater", postcondition="Accepted")
+    res = vlib.run_tlc(d, "ThrTrace", "ThrTrace.cfg", workers=1, timeout=timeout, dfs_queue=True)
+    c.cov["tlc_runs"].append({"config": "trace:" + label, "mode": "trace-validation", "lines": n, "segments": segs,
+                              "put_events": puts, "distinct_states": res.distinct, "wall_s": round(res.wall, 1),
+                              "ok": res.ok})
+    if res.ok:
+        c.cov["states"] += res.distinct
+        c.cov["transitions"] += res.generated
+        return n, segs, puts, None
+    m = re.search(r'<<"REJECTED_AT", (\d+), (.*)>>', res.out)
+    if res.violation == "postcondition" or m:
+        return n, segs, puts, (int(m.group(1)), m.group(2)[:400]) if m else (-1, res.out[-600:])
+    if res.timeout:
+        raise Inconclusive("trace validation timed out (%s)" % label)
+    raise Inconclusive("trace validation failed to run (%s): %s" % (label, (res.error_trace or res.out)[-2000:]))
+
+
+def build_badger_cli():
+    """Build the production `badger` command (badger/cmd, used for `badger rotate`) from the
+    repository under test."""
+    alt = vlib.REPO.rstrip("/") != "/repo"
+    bindir = os.path.join(vlib.ROOT, ".bin") if not alt else os.path.join(
+        vlib.ROOT, ".bin-" + hashlib.sha1(vlib.REPO.encode()).hexdigest()[:8])
+    os.makedirs(bindir, exist_ok=True)
+    out = os.path.join(bindir, "badger-cli")
+    p = subprocess.run(["go", "build", "-o", out, "./badger"], cwd=vlib.REPO, env=vlib.goenv(),
+                       stdout=subprocess.PIPE, stderr=subprocess.STDOUT, text=True)
+    if p.returncode != 0:
+        raise Inconclusive("go build ./badger failed:\n%s" % p.stdout[-3000:])
+    return out
+
+
+def tree_hash(root):
+    """names, sizes and content hashes of everything below root"""
+    out = {}
+    for dp, dns, fns in os.walk(root):
+        for n in dns:
+            out[os.path.relpath(os.path.join(dp, n), root) + "/"] = "dir"
+        for n in fns:
+            p = os.path.join(dp, n)
+            try:
+                b = open(p, "rb").read()
+                out[os.path.relpath(p, root)] = "%d:%s" % (len(b), hashlib.sha256(b).hexdigest()[:16])
+            except OSError as e:
+                out[os.path.relpath(p, root)] = "unreadable:%s" % e
+    return out
+
+
+def op_histogram(cases):
+    h = {}
+    for cs in cases:
+        for s in cs:
+            k = s["op"]
+            if k in ("commit", "commitAt"):
+                k += ":" + s["res"]
+            elif k == "env":
+                k += ":" + s["what"]
+            elif k == "scan":
+                k += ":" + s["via"]
+            h[k] = h.get(k, 0) + 1
+    return dict(sorted(h.items()))
+
+
+# --------------------------------------------------------------------------- shared shapes
+ENV_ALL = ["flush", "compactL0", "compactL0L0", "compactDown", "gc"]
+
+
+def hist_consts(table, **over):
+    """Constants of a BadgerKVGen run over a concretisation table (with or without the
+    reserved-prefix key): transactions write the first non-reserved keys."""
+    kc = key_consts(table)
+    user = [i + 1 for i, k in enumerate(table) if not k.startswith(b"!badger!")]
+    base = dict(kc, Txns="1..8", MaxTs="8", MaxNow="3", Managed="FALSE", UMs="{0, 7}", Exps="{0}",
+                Discs="{FALSE}", IterDirs="{FALSE, TRUE}", HistLen="30", MaxOps="3", MaxActive="3",
+                WriteKeys=tla_set(user[:3]), SeekKeys=tla_set(user[:5]))
+    base.update(over)
+    return base
+
+
+def iter_templates(table, rich=True):
+    """Iterator option templates over a table: plain, reverse, AllVersions, SinceTs, prefix
+    through opt.Prefix / ValidForPrefix, key iterator, InternalAccess."""
+    user = [i + 1 for i, k in enumerate(table) if not k.startswith(b"!badger!")]
+    p = user[0]
+    t = [tla_opts(), tla_opts(rev=True), tla_opts(all=True), tla_opts(since=1)]
+    if rich:
+        t += [tla_opts(pfx=p, pmode="opt"), tla_opts(pfx=p, pmode="valid", rev=True), tla_opts(pfx=p, pmode="opt", rev=True),
+              tla_opts(pfx=user[1], pmode="key", all=True), tla_opts(all=True, rev=True, since=2),
+              tla_opts(pfx=user[1], pmode="valid"), tla_opts(internal=True), tla_opts(all=True, internal=True)]
+    return tla_seq(t)
+
+
+def oracle_stage(c, prop):
+    """Hook for the commit-pipeline (Oracle) module, which adds true concurrency."""
+    if os.environ.get("VERIF_KV_SKIP_ORACLE_STAGE"):   # development aid only; never set by bin/check
+        log("oracle stage skipped on request")
+        return
+    try:
+        import lib_oracle
+    except ImportError:
+        return
+    lib_oracle.stage(c, prop)
 
 
 def hist_key(h):
@@ -154,6 +482,23 @@ def nontrivial(h, need_ops):
 
 
 def short(h, n=40):
+    def items(rs):
+        return ",".join("k%d:%s@%d" % (x["k"], "del" if x["res"].get("del") else "v%d" % x["res"]["val"], x["res"]["ts"]) for x in rs)
+
+    def optstr(o):
+        if not o:
+            return ""
+        parts = ["rev" if o["rev"] else "fwd"]
+        if o["all"]:
+            parts.append("all")
+        if o["since"]:
+            parts.append("since=%d" % o["since"])
+        if o["pmode"] != "none":
+            parts.append("%s=k%d" % (o["pmode"], o["pfx"]))
+        parts.append("seek=k%d" % o["seek"] if o["seek"] else "rewind")
+        if o["internal"]:
+            parts.append("internal")
+        return ",".join(parts)
     out = []
     for s in h[:n]:
         o = s["op"]
@@ -163,18 +508,26 @@ def short(h, n=40):
             r = s["res"]
             out.append("get(t%d,k%d)=%s" % (s["t"], s["k"], ("v%d@%d" % (r["val"], r["ts"])) if r["found"] else "nil"))
         elif o == "set":
-            out.append("set(t%d,k%d,v%d%s)" % (s["t"], s["k"], s["val"], ",exp" if s["exp"] else ""))
-        elif o == "del":
-            out.append("del(t%d,k%d)" % (s["t"], s["k"]))
+            out.append("set(t%d,k%d,v%d%s%s)" % (s["t"], s["k"], s["val"], ",exp=%d" % s["exp"] if s["exp"] else "",
+                                                 ",um=%d" % s["um"] if s["um"] else ""))
+        elif o in ("del", "setBig"):
+            out.append("%s(t%d,k%d)" % (o, s["t"], s["k"]))
         elif o in ("commit", "commitAt"):
-            out.append("%s(t%d)=%s@%d" % (o, s["t"], s["res"], s["cts"]))
+            out.append("%s%s(t%d)=%s@%d" % (o, "With" if s.get("cb") else "", s["t"], s["res"], s["cts"]))
         elif o == "iter":
-            out.append("iter(t%d,from k%d,%s)=[%s]" % (s["t"], s["from"], "rev" if s["rev"] else "fwd",
-                       ",".join("k%d:v%d" % (x["k"], x["res"]["val"]) for x in s["res"])))
+            out.append("iter(t%d,%s)=[%s]" % (s["t"], optstr(s.get("o")) or ("from k%d" % s["from"]), items(s["res"])))
+        elif o == "iterOpen":
+            out.append("newIterator(t%d,%s)" % (s["t"], optstr(s.get("o"))))
+        elif o == "iterRun":
+            out.append("iterate(t%d)=[%s]" % (s["t"], items(s["res"])))
+        elif o in ("scan", "dump"):
+            out.append("%s%s=[%s]" % (o, ":" + s["via"] if o == "scan" else "", items(s["res"])))
         elif o == "env":
             out.append("ENV:" + s["what"])
         elif o == "tick":
             out.append("tick->%d" % s["now"])
+        elif o == "setDiscardTs":
+            out.append("setDiscardTs(%d)" % s["ts"])
         else:
             out.append(o + "(t%s)" % s.get("t"))
     return " ; ".join(out)
